@@ -33,3 +33,10 @@ import pygal_on_ready  # noqa: E402
 
 # taskiq/scheduler/scheduler.py: TaskiqScheduler.on_ready (C16), monadic backend over PyStm.v / PyPreludeSched.v
 SPECS["on_ready"] = pygal_on_ready.SPEC
+
+import pygal_run_task  # noqa: E402
+
+# taskiq/receiver/receiver.py: Receiver.run_task, the whole function - one translation, two readings:
+# "run_task" over Pipeline.v's alphabet (C07), "run_task_deps" over Deps.v's (C12); monadic backend over PyStm.v
+SPECS["run_task"] = pygal_run_task.SPEC
+SPECS["run_task_deps"] = pygal_run_task.SPEC_DEPS
